@@ -122,6 +122,9 @@ func init() {
 			o.Faults, o.BindFailures, o.MIG = false, false, false
 			o.Hierarchy, o.MaxWorkloads, o.MaxCycles = 3, 12, 3
 			s := GenScript(t, "C09", "queue-trees", o)
+			for i := range s.World.Queues { // queues of different age: the remainder tie-break looks at creation time before the UID
+				s.World.Queues[i].AgeH = pick(t, "qage", 0, 0, 1, 5, 100)
+			}
 			if chance(t, "timebased", 45) { // time-based fair share: historical usage per queue and a k-value
 				s.Profile = "queue-trees-usage"
 				s.Config.KValue = pick(t, "kvalue", "", "0.5", "1", "2", "10")
